@@ -650,6 +650,16 @@ def gaussian_matrices(of, rs, rng, n, seed):
         W[:h, :h] = rand_unitary(rs, h)
         W[h:, n + h:] = rand_unitary(rs, h)
         out.append(('gaussian-spin-block', W))
+        if h >= 2:
+            # spin-down modes: a generic Bogoliubov transformation among themselves
+            Hd = of.random_quadratic_hamiltonian(h, conserves_particle_number=False, seed=seed + 7)
+            Wd = np.asarray(Hd.diagonalizing_bogoliubov_transform()[1], dtype=complex)
+            if Wd.shape == (h, 2 * h):
+                W = np.zeros((n, 2 * n), dtype=complex)
+                W[:h, :h] = rand_unitary(rs, h)
+                W[h:, h:n] = Wd[:, :h]
+                W[h:, n + h:] = Wd[:, h:]
+                out.append(('gaussian-spin-block-generic', W))
     return out
 
 
@@ -819,6 +829,25 @@ def glue_stream(ctx):
             lambda r, n=n, occ=occ, case=case: r == [[i for i in occ if i < n // 2],
                                                     [i - n // 2 for i in occ if i >= n // 2]]
             or st.disagree('spin split', case, None, r))
+    # _is_spin_block_diagonal: shape test (Model) + numerical block test (input, decided with margin)
+    for it in range(budget(ctx.tier, 24, 120)):
+        n = rng.randint(1, 6)
+        cols = rng.choice([n, n, 2 * n])
+        W = rs.randn(n, cols) + 1j * rs.randn(n, cols)
+        offzero = rng.random() < 0.6
+        if offzero and n >= 2:
+            W[:n // 2, n // 2:] = 0
+            W[n // 2:, :n // 2] = 0
+        off = bool(n >= 2 and np.abs(W[:n // 2, n // 2:]).max(initial=0) < 1e-12
+                   and np.abs(W[n // 2:, :n // 2]).max(initial=0) < 1e-12)
+        case = {'fn': '_is_spin_block_diagonal', 'shape': [n, cols], 'off_diagonal_blocks_zero': off}
+        st.case(case)
+        st.count('fn:_is_spin_block_diagonal')
+        ok, real_ans = safe(st, '_is_spin_block_diagonal', case, lambda: bool(bt._is_spin_block_diagonal(W)))
+        if ok:
+            ask({'op': 'c14.spinblock', 'rows': n, 'cols': cols, 'offzero': off},
+                lambda r, real_ans=real_ans, case=case: r == real_ans
+                or st.disagree('_is_spin_block_diagonal', case, real_ans, r))
     # ffft recursion structure
     nmax = budget(ctx.tier, 16, 36)
     for n in range(1, nmax + 1):
@@ -944,8 +973,7 @@ def primitives_stream(ctx, lad):
                 try:
                     U = circuit_unitary(cirq, of.bogoliubov_transform(qubits, W.copy()), qubits)
                 except Exception as e:  # noqa: BLE001
-                    st.violate('bogoliubov_transform raised %s' % type(e).__name__, case,
-                               {'exception': repr(e)[:200], 'gaussian_spin_block_shape': bool(is_gauss_spin_block(W))})
+                    st.violate('bogoliubov_transform raised %s' % type(e).__name__, case, {'exception': repr(e)[:200]})
                     continue
                 for p in range(n):
                     check(case, 'conjugation: U a^_%d U^-1 (bogoliubov_transform, %s)' % (p, kind),
@@ -1067,16 +1095,11 @@ def primitives_stream(ctx, lad):
 
 # ------------------------------------------------------------------ known findings
 
-KNOWN_GAUSS = 'C14-bogoliubov-gaussian-spin-block-shape'
 KNOWN_DOC = 'C14-quadratic-docstring-w1-sign'
 KNOWN_SING = 'C14-gaussian-decomposition-singular-annihilation-block'
 
 
 def classify(v):
-    if (v['what'].startswith('bogoliubov_transform raised ValueError')
-            and v['detail'].get('gaussian_spin_block_shape') is True
-            and 'Bad shape' in v['detail'].get('exception', '')):
-        return KNOWN_GAUSS
     if ((v['what'].startswith('conjugation: U a^_') and 'bogoliubov_transform' in v['what']
          or v['what'].startswith('initial_state: bogoliubov_transform')
          or v['what'].startswith('state: prepare_gaussian_state'))
@@ -1092,13 +1115,6 @@ def probe_known(ctx, k):
     import cirq
     import scipy.linalg as la
     of = ctx.of
-    if k['id'] == KNOWN_GAUSS:
-        W = np.array([[1, 0, 0, 0], [0, 0, 0, 1]], dtype=complex)
-        try:
-            list(cirq.flatten_op_tree(of.bogoliubov_transform(cirq.LineQubit.range(2), W)))
-            return False
-        except ValueError:
-            return True
     if k['id'] == KNOWN_SING:
         W = np.array([[0.6, 0.8, 0, 0], [-0.8, 0.6, 0, 0]], dtype=complex)
         qs = cirq.LineQubit.range(2)
